@@ -12,12 +12,13 @@
 (***************************************************************************)
 EXTENDS LinkedDict, Json
 
-CONSTANTS Keys, Vals, Maxes, MaxVal, IsSet, None, Rej, EK
+CONSTANTS Keys, Vals, Maxes, MaxVal, IsSet, None, Rej, EK,
+          Nones   \* arguments of SetNullValue (a set of integers, may be empty)
 
 VARIABLE act
 mcvars == <<vars, act>>
 
-Cfg == [set |-> IsSet, none |-> None, rej |-> Rej, ek |-> EK]
+Cfg == [set |-> IsSet, none |-> None, none0 |-> None, rej |-> Rej, ek |-> EK]
 
 MCInit == InitWith(Cfg) /\ act = <<"Init", 0, 0>>
 
@@ -27,7 +28,8 @@ AddFits(k, v) == IF Present(k) THEN val[k] + v <= MaxVal ELSE TRUE
 
 DirSeq == <<"asc", "desc", "par">>
 ObsOps == {"GetFirstKey", "GetLastKey", "GetFirstValue", "GetLastValue", "IsEmpty", "IsFull",
-           "ToString", "Keys", "KeyArray", "Values", "Entries"}
+           "ToString", "Keys", "KeyArray", "Values", "Entries",
+           "ToFormatString", "ValueIterator", "GetKeySet", "ToKeySet", "ToBytes"}
 
 MCNext ==
   \/ \E k \in Keys, v \in Vals :
@@ -38,6 +40,7 @@ MCNext ==
        \/ ~IsSet /\ AddFits(k, v) /\ AddFirst(k, v) /\ Lbl("AddFirst", k, v)
        \/ ~IsSet /\ AddFits(k, v) /\ AddLast(k, v) /\ Lbl("AddLast", k, v)
        \/ ~IsSet /\ AddFits(k, v) /\ AddNoOver(k, v) /\ Lbl("AddNoOver", k, v)
+       \/ IsSet /\ Put(k, v) /\ Lbl("Unipoint", k, 0)
   \/ \E k \in Keys :
        \/ Get(k) /\ Lbl("Get", k, 0)
        \/ GetLRU(k) /\ Lbl("GetLRU", k, 0)
@@ -47,6 +50,7 @@ MCNext ==
   \/ Clear /\ Lbl("Clear", 0, 0)
   \/ \E i \in 1..Len(DirSeq) : Sort(DirSeq[i]) /\ Lbl("Sort", i, 0)
   \/ \E n \in Maxes : SetMax(n) /\ Lbl("SetMax", n, 0)
+  \/ \E n \in Nones : SetNone(n) /\ Lbl("SetNullValue", n, 0)
   \* read-only calls: stuttering steps, labelled so that the dumped state graph
   \* (below) makes the replayer issue them from every reachable state
   \/ \E o \in ObsOps : UNCHANGED vars /\ Lbl(o, 0, 0)
@@ -58,10 +62,10 @@ MCSpec == MCInit /\ [][MCNext]_mcvars
 \* ---- the clauses of the property statement as action properties ----------
 A == act'[1]
 K == act'[2]
-InsertOps  == {"Put", "PutFirst", "PutLast", "Add", "AddFirst", "AddLast", "AddNoOver"}
+InsertOps  == {"Put", "PutFirst", "PutLast", "Add", "AddFirst", "AddLast", "AddNoOver", "Unipoint"}
 FirstOps   == {"PutFirst", "AddFirst"}
 LastOps    == {"PutLast", "AddLast"}
-PlainOps   == {"Put", "Add", "AddNoOver"}
+PlainOps   == {"Put", "Add", "AddNoOver", "Unipoint"}
 WasNew     == K \notin Range(ord)
 Ok         == ~(Rej /\ K = EK)
 IsPrefix(p, s) == Len(p) <= Len(s) /\ SubSeq(s, 1, Len(p)) = p
@@ -116,6 +120,10 @@ LRUMoves == [][LRUMovesA]_mcvars
 \* the lines into harness/c09/graph_*.txt, which the Go driver replays edge by
 \* edge on each real type.  Label = <<operation, key | dir index | bound, value>>.
 DumpT == PrintT(ToJson(<<"T", ord, ValuesSeq, max, act', ord', ValuesSeq', max'>>))
+
+\* the "absent" answer never touches the dictionary
+NoneIsInertA == A = "SetNullValue" => (ord' = ord /\ val' = val /\ max' = max)
+NoneIsInert == [][NoneIsInertA]_mcvars
 
 NoneNil  == <<>>
 NoneZero == <<0>>
